@@ -1423,8 +1423,8 @@ func TestVerifC07(t *testing.T) {
 	r.Bound("e2_full_op_set", "depth 4, at most 3 objects: Copy, ReverseComplement(false|true), Subsequence x4 windows, MutSeq, MutQual, SetQualities, SetSequence, SetFeatures(cap 300|cap 3), SetAttribute, nested-map write, Recycle, Join(false|true), third-party GetSlice / RecycleSlice")
 	c07e2(r, "e2", 4, 3, 2, false, roots)
 	if thorough {
-		r.Bound("e2deep_reduced_op_set", "depth 5, at most 4 objects: as above without MutQual, SetAttribute and the full-length Subsequence window (the probe after every step still flips every quality byte and annotation)")
-		c07e2(r, "e2deep", 5, 4, 2, true, roots)
+		r.Bound("e2deep_reduced_op_set", "source with qualities only, depth 5, at most 4 objects: as above without MutQual, SetAttribute and the full-length Subsequence window (the probe after every step still flips every quality byte and annotation)")
+		c07e2(r, "e2deep", 5, 4, 2, true, []string{"q"})
 	}
 	r.Sample(c07case{Kind: "E2", Root: "q", Steps: []c07step{{Op: "SetQual", A: 0, Ch: []int{0}}, {Op: "Copy", A: 0, Ch: []int{1, 0, 0}}}})
 	r.RequireNonVacuous("e2_pool_gets_answered_with_pooled_item")
